@@ -67,6 +67,33 @@ def run(ctx):
         for d, _ in mods:
             shutil.rmtree(d + "_tx", ignore_errors=True)
         ds.cleanup(mods)
+    # the standalone binary started in nested directories of a module with a root-level file: every step still names
+    # an existing file (relative names resolve from the working directory, shortened ones are a suffix of a module file)
+    from . import c18
+    import re as _re
+    nb_runs = 0
+    base18 = ctx.scratch()
+    try:
+        root = os.path.realpath(os.path.join(base18, "m", "mod"))
+        os.makedirs(root)
+        c18.write_module(root)
+        modfiles = [os.path.relpath(os.path.join(r, f), os.path.dirname(root)) for r, _, fs in os.walk(root) for f in fs if f.endswith(".go")]
+        for sub in ("", "p/a", "q/c/d"):
+            cwd = os.path.normpath(os.path.join(root, sub))
+            for full in ((), ("-print-full-file-path",)):
+                rc, diags, text = c18.run_binary(cwd, root, extra_flags=full)
+                nb_runs += 1
+                if not diags:
+                    wbad.append("standalone binary started in %s: no diagnostics: %s" % (cwd, text[-300:]))
+                for (f, l, c, msg) in diags:
+                    for m in _re.finditer(r"^\t- ([^\s:]+\.go):(\d+):(\d+):", msg.replace("<M>/", "mod/"), flags=_re.M):
+                        name = m.group(1)
+                        ok = os.path.exists(os.path.normpath(os.path.join(cwd, name))) if name.startswith("..") or full else any(mf.endswith(name) for mf in modfiles)
+                        if not ok:
+                            wbad.append("standalone binary started in %s%s: the flow step %s:%s:%s names no existing file" % (cwd, " with -print-full-file-path" if full else "", name, m.group(2), m.group(3)))
+    finally:
+        import shutil as _sh
+        _sh.rmtree(base18, ignore_errors=True)
     ctx.obligation("whole tool: %d diagnostics of %d modules, each also with an empty first line in every file (both path-printing modes): valid position on an existing line, >= 1 flow step, every file:line:col resolves, last step = reported position; %d of them are located in a dependency's file" % (ndiag, len(mods), ndep), ndiag > 0 and ndep > 0 and not wbad)
     ctx.coverage.update({"evaluations": len(res["cases"]) + ndiag, "distinct_nontrivial": len(set(c.line() for c in res["cases"])),
                          "rule": "synthetic conflict sets (positions in files the file set does not contain, some beyond line 65536) and real diagnostics of generated/hand-written modules; distinct by case line"})
